@@ -16,19 +16,21 @@ import re, sys, collections, json
 
 TOK = re.compile(r'''\s*(c"(?:[^"\\]|\\\\|\\[0-9A-Fa-f]{2})*"|[%@]"(?:[^"\\]|\\.)*"|[%@][-a-zA-Z$._0-9]+|![a-zA-Z0-9_.]*|\#\d+|-?\d+\.\d+(?:e[+-]?\d+)?|0x[0-9A-Fa-f]+|-?\d+|\.\.\.|[a-zA-Z_][a-zA-Z0-9_.]*|[\[\]{}<>()*,=:!])''')
 
+_WS_END = re.compile(r'\s*(;.*)?$')
+_COMMENT = re.compile(r'\s*;')
 def tokenize(s):
     out = []; i = 0; n = len(s)
     while i < n:
         m = TOK.match(s, i)
         if not m:
-            if s[i:].strip() == '' or s[i:].lstrip().startswith(';'): break
+            if _WS_END.match(s, i): break
             raise SyntaxError('tok: ' + s[i:i+60])
         t = m.group(1)
         if t.startswith('!'):
             while out and out[-1] == ',': out.pop()
             break
         out.append(t); i = m.end()
-        if s[i:].lstrip().startswith(';'): break
+        if _COMMENT.match(s, i): break
     return out
 
 # ---------------- types -----------------
